@@ -138,8 +138,8 @@ fn prepare(rng : &mut Rng, sc : &Scenario, flavor : Flavor, out : &mut Out) -> P
         if flavor == Flavor::WithFailures && rng.chance(1, 8) { continue; }
         apply(Op::Write(l.clone(), rng.pick(&["X", "X", "Y"]).as_bytes().to_vec()), &mut prep, &mut tr, out);
     }
-    let state = rng.below(8);
-    out.count(&format!("initial-state:{}", ["fresh", "built", "built-cleaned", "built-edited", "built-cleaned-edited", "built-tampered", "built-partly-cleaned-edited", "built-partly-cleaned-edited"][state]));
+    let state = rng.below(10);
+    out.count(&format!("initial-state:{}", ["fresh", "built", "built-cleaned", "built-edited", "built-cleaned-edited", "built-tampered", "built-partly-cleaned-edited", "built-partly-cleaned-edited", "built-tampered-cleaned-edited", "built-tampered-cleaned-edited"][state]));
     if state >= 1 { apply(Op::Build(None), &mut prep, &mut tr, out); }
     match state
     {
@@ -159,6 +159,26 @@ fn prepare(rng : &mut Rng, sc : &Scenario, flavor : Flavor, out : &mut Out) -> P
                 if rng.chance(1, 2) { apply(Op::Write(t, b"tampered".to_vec()), &mut prep, &mut tr, out); } else { apply(Op::Remove(t), &mut prep, &mut tr, out); }
             }
         },
+        8 | 9 =>
+        {
+            // a target that another rule reads (else any target) is overwritten by hand, everything is cleaned, a leaf is
+            // edited: the build must not hand the scribbled file to the dependent as if it were the rule's output
+            let targets : Vec<String> = sc.all_targets().into_iter().collect();
+            let read_by_others : Vec<String> = targets.iter().filter(|t| sc.rules.iter().any(|r| r.sources.contains(t))).cloned().collect();
+            if !targets.is_empty()
+            {
+                let t = if !read_by_others.is_empty() { rng.pick(&read_by_others).clone() } else { rng.pick(&targets).clone() };
+                apply(Op::Write(t.clone(), b"scribbled".to_vec()), &mut prep, &mut tr, out);
+                apply(Op::Clean(None), &mut prep, &mut tr, out);
+                // preferably a leaf that a reader of the scribbled target reads and the target's own rule does not: the
+                // reader's command then runs again, on whatever ruler put at the target
+                let own : Vec<String> = sc.owner(&t).map(|i| sc.rules[i].sources.clone()).unwrap_or(vec![]);
+                let beside : Vec<String> = sc.rules.iter().filter(|r| r.sources.contains(&t)).flat_map(|r| r.sources.iter().cloned()).filter(|s| leaves.contains(s) && !own.contains(s)).collect();
+                let ls : Vec<String> = leaves.iter().cloned().collect();
+                if !beside.is_empty() && rng.chance(3, 4) { let l = rng.pick(&beside).clone(); apply(Op::Write(l, b"Z".to_vec()), &mut prep, &mut tr, out); }
+                else if !ls.is_empty() && rng.chance(3, 4) { let l = rng.pick(&ls).clone(); apply(Op::Write(l, b"Z".to_vec()), &mut prep, &mut tr, out); }
+            }
+        },
         6 | 7 =>
         {
             // some targets cleaned (they will be restored), others left in place, then a leaf edited so that
@@ -175,7 +195,7 @@ fn prepare(rng : &mut Rng, sc : &Scenario, flavor : Flavor, out : &mut Out) -> P
 
 fn tracker_clone(t : &Tracker) -> Tracker
 {
-    Tracker{scenario : t.scenario.clone(), ever_targets : t.ever_targets.clone(), ledger : t.ledger.clone(), deterministic : t.deterministic, last_ok_build : t.last_ok_build.clone(), label : t.label.clone(), lost_by_ruler : t.lost_by_ruler.clone()}
+    Tracker{scenario : t.scenario.clone(), ever_targets : t.ever_targets.clone(), ledger : t.ledger.clone(), deterministic : t.deterministic, last_ok_build : t.last_ok_build.clone(), label : t.label.clone(), lost_by_ruler : t.lost_by_ruler.clone(), cleaned_up_to_date : t.cleaned_up_to_date.clone()}
 }
 
 /// C03: every command starts on final sources and nobody changes them afterwards
